@@ -138,3 +138,43 @@ theorem exists_ne_of_ne (c1 c2 : List Nat) (hl : c1.length = c2.length) (hne : c
         exact ⟨a + 1, by simp; omega, by simpa using hd⟩
       · exact ⟨0, by simp, by simpa using hxy⟩
 end Catii.Cube
+
+namespace Catii.Cube
+theorem fillWith_cell {α : Type} [Zero α] [Add α] (exts : List Nat) (μ : Nat → α) (items : List (Co × Rows))
+    (R0 R : Region α) (h : fillWith exts μ items R0 = .ok R) (c : Cell) :
+    (∃ it ∈ items, cellOf exts it.1 = c ∧ rget R c = (it.2.map μ).sum) ∨
+    ((∀ it ∈ items, cellOf exts it.1 ≠ c) ∧ rget R c = rget R0 c) := by
+  induction items generalizing R0 with
+  | nil =>
+    simp only [fillWith, pure, Except.pure] at h
+    cases h
+    exact Or.inr ⟨by simp, rfl⟩
+  | cons it rest ih =>
+    simp only [fillWith] at h
+    split at h
+    · rcases ih _ h with ⟨it', hit', hc, hv⟩ | ⟨hnone, hv⟩
+      · exact Or.inl ⟨it', List.mem_cons_of_mem _ hit', hc, hv⟩
+      · by_cases hcell : cellOf exts it.1 = c
+        · refine Or.inl ⟨it, List.mem_cons_self, hcell, ?_⟩
+          rw [hv]; simp [rget, rput, hcell]
+        · refine Or.inr ⟨?_, ?_⟩
+          · intro it' hit'
+            rcases List.mem_cons.mp hit' with rfl | h'
+            · exact hcell
+            · exact hnone it' h'
+          · rw [hv]
+            have : (cellOf exts it.1 == c) = false := by simpa using hcell
+            simp [rget, rput, this]
+    · cases h
+
+theorem fillWith_ok {α : Type} [Zero α] [Add α] (exts : List Nat) (μ : Nat → α) (items : List (Co × Rows))
+    (R0 : Region α)
+    (h : ∀ it ∈ items, ((exts.zip (cellOf exts it.1)).all fun (e, v) => decide (v ≤ e)) = true) :
+    ∃ R, fillWith exts μ items R0 = .ok R := by
+  induction items generalizing R0 with
+  | nil => exact ⟨R0, rfl⟩
+  | cons it rest ih =>
+    simp only [fillWith]
+    rw [if_pos (h it List.mem_cons_self)]
+    exact ih _ (fun it' h' => h it' (List.mem_cons_of_mem _ h'))
+end Catii.Cube
